@@ -120,12 +120,14 @@ Record params := mkParams {
 (* right-hand side of an assignment: opaque id + "contains a call TypeVar(...)" *)
 Record value := mkVal { vid : N; vtv : bool }.
 
-Inductive tkind :=
-| KName | KAttr | KSub
+Inductive okind :=
+| KAttr | KSub
 | KTuple (elts : list (option path)).   (* Tuple/List target: get_full_name_for_node of each element *)
-(* tname = libcst.helpers.get_full_name_for_node(target) ; tid = opaque rest (0 for a Name) *)
-Record target := mkT { tk : tkind; tname : option path; tid : N }.
-Definition name_target (n : N) : target := mkT KName (Some [n]) 0.
+(* a plain Name, or another target with nm = libcst.helpers.get_full_name_for_node(target) and an
+   opaque id for the rest *)
+Inductive target := TName (n : N) | TOther (k : okind) (nm : option path) (id : N).
+Definition tname (t : target) : option path :=
+  match t with TName n => Some [n] | TOther _ nm _ => nm end.
 
 Inductive item :=
 | Fun (name : N) (deco : N) (ps : params) (ret : option expr) (body : list item)
@@ -373,7 +375,7 @@ Definition tv_used (names : list N) (k : path) : bool :=
 
 (* GatherGlobalNamesVisitor: module-scope Name targets of Assign/AnnAssign and module-scope classes *)
 Definition target_global (t : target) : list N :=
-  match tk t, tname t with KName, Some [n] => [n] | _, _ => [] end.
+  match t with TName n => [n] | _ => [] end.
 Definition global_names (l : list item) : list N :=
   flat_map (fun it => match it with
                       | Cls n _ _ _ => [n]
@@ -528,33 +530,33 @@ Definition apply_assign (e : env) (ts : list target) (v : value) (s : astate) : 
   match ts with
   | [t] =>
       (* _annotate_single_target *)
-      match tk t with
-      | KTuple elts => (Assign ts v, add_toplevels e elts s)
-      | KSub => (Assign ts v, s)
-      | k =>
-          match tname t with
-          | None => (Assign ts v, s)
-          | Some nm =>
-              let s1 := a_push nm s in
-              let qn := qname (qual s1) in
-              match dict_get path_eqb qn (eattrs e), k with
-              | Some a, KName =>
-                  if mem_path qn (done s1) then
-                    (* falls through to `return updated_node` WITHOUT self.qualifier.pop() *)
-                    (Assign ts v,
-                     mkA (qual s1) (done s1) (visited s1) (decls s1) (stv s1) (changed s1) true (clsdecl s1) (genadd s1))
-                  else
-                    let s2 := a_pop (mkA (qual s1) (qn :: done s1) (visited s1) (decls s1) (stv s1)
-                                         true (leak s1) (clsdecl s1) (genadd s1)) in
-                    (AnnAssign (mkT KName (Some nm) 0) (quote (egnames e) (visited s2) a) (Some v), s2)
-              | _, _ => (Assign ts v, a_pop s1)
-              end
+      match t with
+      | TOther (KTuple elts) _ _ => (Assign ts v, add_toplevels e elts s)
+      | TOther KSub _ _ => (Assign ts v, s)
+      | TOther KAttr None _ => (Assign ts v, s)
+      | TOther KAttr (Some nm) _ => (Assign ts v, a_pop (a_push nm s))     (* the `else: pop()` branch *)
+      | TName n =>
+          let s1 := a_push [n] s in
+          let qn := qname (qual s1) in
+          match dict_get path_eqb qn (eattrs e) with
+          | Some a =>
+              if mem_path qn (done s1) then
+                (* falls through to `return updated_node` WITHOUT self.qualifier.pop() *)
+                (Assign ts v,
+                 mkA (qual s1) (done s1) (visited s1) (decls s1) (stv s1) (changed s1) true (clsdecl s1) (genadd s1))
+              else
+                let s2 := a_pop (mkA (qual s1) (qn :: done s1) (visited s1) (decls s1) (stv s1)
+                                     true (leak s1) (clsdecl s1) (genadd s1)) in
+                (* cst.AnnAssign(cst.Name(name), ...) *)
+                (AnnAssign (TName n) (quote (egnames e) (visited s2) a) (Some v), s2)
+          | None => (Assign ts v, a_pop s1)
           end
       end
   | _ =>
       (Assign ts v,
-       add_toplevels e (flat_map (fun t => match tk t with
-                                           | KName | KAttr => [tname t]
+       add_toplevels e (flat_map (fun t => match t with
+                                           | TName n => [Some [n]]
+                                           | TOther KAttr nm _ => [nm]
                                            | _ => []
                                            end) ts) s)
   end.
@@ -638,11 +640,7 @@ Definition is_from_import (it : item) : bool :=
 Definition skip_first (p : list item) : nat :=
   match p with
   | Doc _ :: _ => 1
-  | Assign [t] _ :: _ =>
-      match tk t, tname t with
-      | KName, Some [n] => if n =? id_strict then 1 else 0
-      | _, _ => 0
-      end
+  | Assign [TName n] _ :: _ => if n =? id_strict then 1 else 0
   | _ => 0
   end%nat.
 
@@ -730,7 +728,7 @@ Definition merge (v : variant) (p s : list item) : merged :=
   let '(core, st) := apply_items e p a0 in
   let fresh := filter (fun kd => negb (memN (fst kd) (visited st))) (cclasses c) in
   let new_tvs := filter (fun kv => negb (mem_path (fst kv) (stv st))) tvs in
-  let decl_items := map (fun kd => Added (AnnAssign (mkT KName (Some (fst kd)) 0)
+  let decl_items := map (fun kd => Added (AnnAssign (TName (hd 0 (fst kd)))
                                                     (quote (global_names p) (visited st) (snd kd)) None))
                         (decls st) in
   let top := decl_items ++ map (fun kv => Added (snd kv)) new_tvs
@@ -799,11 +797,7 @@ Fixpoint slots (chain : option path) (it : item) : list slot :=
   match it with
   | Fun n d ps r b => fun_slots (ext chain [n]) ps r ++ flat_map (slots None) b
   | Cls n h bs b => flat_map (slots (ext chain [n])) b
-  | Assign [t] v =>
-      match tk t, tname t with
-      | KName, Some nm => [mkSlot (ext chain nm) None WVar None]
-      | _, _ => []
-      end
+  | Assign [TName n] v => [mkSlot (ext chain [n]) None WVar None]
   | AnnAssign t a v =>
       [mkSlot (match tname t with Some nm => ext chain nm | None => None end) None WVar (Some a)]
   | Block i b => flat_map (slots chain) b
@@ -910,10 +904,14 @@ Definition ser_params (ps : params) : list N :=
   ser_list ser_param (kwonly ps) ++ ser_opt ser_param (kwstar ps).
 Definition ser_value (v : value) : list N := [vid v; b2n (vtv v)].
 Definition ser_target (t : target) : list N :=
-  (match tk t with
-   | KName => [0] | KAttr => [1] | KSub => [2]
-   | KTuple elts => 3 :: ser_list (ser_opt ser_path) elts
-   end) ++ ser_opt ser_path (tname t) ++ [tid t].
+  match t with
+  | TName n => [0; n]
+  | TOther k nm i =>
+      (match k with
+       | KAttr => [1] | KSub => [2]
+       | KTuple elts => 3 :: ser_list (ser_opt ser_path) elts
+       end) ++ ser_opt ser_path nm ++ [i]
+  end.
 
 Fixpoint ser_item (it : item) : list N :=
   match it with
